@@ -11,4 +11,6 @@ var (
 	errUnexpectedPacket       = errors.New("failed to read packet: unexpected type or structure")
 
 	errInvalidPacketAuthenticator = errors.New("invalid authenticator")
+
+	errNoMeasurement = errors.New("failed to measure clock offset: no successful measurement")
 )
